@@ -142,6 +142,87 @@ Theorem c06_lag_refuted : exists n sched, Loses (mk RecThenPub SubThenSnap Filte
 Proof. exact lag_refuted. Qed.
 Print Assumptions c06_lag_refuted.
 
+(* ---------- the recorded history over time (attach AFTER the stream ended included) ----------
+   efinal c n m ops sched: the stream model plus the statements `ops` of the producer's code that touch the history
+   buffer apart from the emitter's push (BRead | BTake | BRestore | BClear | BTruncate k); the schedule (any list over
+   {EA a = a step of the stream model, EB = the next buffer statement runs}) decides when they run - at the end of the
+   run, where run_session / finalize_snapshot write the snapshot file, or anywhere else.
+   HistMonotone = the recorded history is prefix-ordered over time.  gen_buffer_ops (Gen/StreamOrder.v) = every such
+   statement of crates/ripd/src read from today's source; gen_buffer_ops_ok = the generated obligation "they only read". *)
+Theorem c06_history_monotone : forall (ops : list bufop), buffer_ops_ok ops = true ->
+  forall (c : cfg) (n m : nat) (sched : list eactor), HistMonotone c n m ops sched.
+Proof. exact history_monotone. Qed.
+Print Assumptions c06_history_monotone.
+
+Theorem c06_history_monotone_code : forall (c : cfg) (n m : nat) (sched : list eactor),
+  HistMonotone c n m gen_buffer_ops sched.
+Proof. exact (history_monotone gen_buffer_ops gen_buffer_ops_ok). Qed.
+Print Assumptions c06_history_monotone_code.
+
+(* exactly-once with the invariant it rests on as an explicit hypothesis: WHATEVER the buffer statements are, a run whose
+   history stays prefix-ordered delivers 0..k-1 to every attached subscriber, at every moment (after the end included) *)
+Theorem c06_exactly_once_monotone_history : forall (c : cfg),
+  c_p c = RecThenPub -> c_s c = SubThenSnap -> c_f c = FilterGtLast -> c_cap c = None ->
+  forall (ops : list bufop) (n m : nat) (sched : list eactor) (i : nat) (x : sub),
+  HistMonotone c n m ops sched ->
+  nth_error (g_subs (e_st (efinal c n m ops sched))) i = Some x -> attached x = true ->
+  ExactlyOnce c n (e_st (efinal c n m ops sched)) x.
+Proof. exact end_of_run_exactly_once. Qed.
+Print Assumptions c06_exactly_once_monotone_history.
+
+(* ... discharged for today's source: the three extracted kinds with the extracted buffer statements *)
+Theorem c06_exactly_once_end_of_run_code : forall (k : kind_orders), In k gen_kinds ->
+  forall (n m : nat) (sched : list eactor) (i : nat) (x : sub),
+  nth_error (g_subs (e_st (efinal (kind_cfg k None) n m gen_buffer_ops sched))) i = Some x -> attached x = true ->
+  ExactlyOnce (kind_cfg k None) n (e_st (efinal (kind_cfg k None) n m gen_buffer_ops sched)) x.
+Proof. exact (end_of_run_kinds gen_kinds gen_stream_order_ok gen_buffer_ops gen_buffer_ops_ok). Qed.
+Print Assumptions c06_exactly_once_end_of_run_code.
+
+(* take-and-restore around the snapshot write (`let frames = mem::take(&mut *buf.lock().await); write; *buf.lock().await
+   = frames`): 3 frames recorded and published, the buffer moved out, a subscriber attaches in the window (empty history,
+   nothing live any more), the buffer put back: the history is [0;1;2] again and the subscriber has received NOTHING *)
+Theorem c06_take_and_restore_refuted :
+  ~ HistMonotone okc 3 1 take_restore_ops take_restore_sched
+  /\ g_prog (e_st (efinal okc 3 1 take_restore_ops take_restore_sched)) = []
+  /\ g_hist (e_st (efinal okc 3 1 take_restore_ops take_restore_sched)) = [0; 1; 2]
+  /\ map attached (g_subs (e_st (efinal okc 3 1 take_restore_ops take_restore_sched))) = [true]
+  /\ map (delivered okc) (g_subs (e_st (efinal okc 3 1 take_restore_ops take_restore_sched))) = [[]].
+Proof. exact take_restore_refuted. Qed.
+Print Assumptions c06_take_and_restore_refuted.
+
+Example c06_same_schedule_reading_under_the_lock :
+  buffer_ops_ok [BRead] = true
+  /\ map (delivered okc) (g_subs (e_st (efinal okc 3 1 [BRead] take_restore_sched))) = [[0; 1; 2]].
+Proof. exact read_only_same_schedule. Qed.
+Print Assumptions c06_same_schedule_reading_under_the_lock.
+
+(* ---------- the thread kind's history source ----------
+   thread_history r side log = ContinuityStore::replay_events: the sidecar `side` when try_replay accepts it (non-empty,
+   seqs checked with r), else the truth log.  gen_replay_check = (first expected seq, comparison) read from try_replay.
+   Whatever the sidecar holds, a thread subscriber's history is the log or the gap-free run 0..k-1 the sidecar holds: *)
+Theorem c06_thread_history_from_zero :
+  forall (side : option (list nat)) (log : list nat),
+  thread_history gen_replay_check side log = log
+  \/ exists k, thread_history gen_replay_check side log = seq 0 k /\ side = Some (seq 0 k).
+Proof. exact (thread_history_from_zero gen_replay_check gen_replay_check_ok). Qed.
+Print Assumptions c06_thread_history_from_zero.
+
+(* the cache lost (deleted) when the thread had j frames, the thread has n frames now (appended to or not since): the
+   subscriber's history is the whole log *)
+Theorem c06_thread_history_after_cache_loss : forall n j, j <= n ->
+  thread_history gen_replay_check (sidecar_after_loss n j) (seq 0 n) = seq 0 n.
+Proof. exact (thread_history_after_loss gen_replay_check gen_replay_check_ok). Qed.
+Print Assumptions c06_thread_history_after_cache_loss.
+
+(* `seq < expected` (increasing instead of successor) hands out the truncated / holed sidecar *)
+Theorem c06_weak_replay_check_refuted :
+  thread_history weak_replay (sidecar_after_loss 10 7) (seq 0 10) = [7; 8; 9]
+  /\ thread_history weak_replay (Some [0; 1; 3; 4]) (seq 0 5) = [0; 1; 3; 4]
+  /\ thread_history code_replay (sidecar_after_loss 10 7) (seq 0 10) = seq 0 10
+  /\ thread_history code_replay (Some [0; 1; 3; 4]) (seq 0 5) = seq 0 5.
+Proof. exact weak_replay_refuted. Qed.
+Print Assumptions c06_weak_replay_check_refuted.
+
 (* non-vacuity: three subscribers attaching at different moments of a 3-frame stream *)
 Example c06_demo :
   g_prog (final okc 3 3 demo_sched) = []
